@@ -44,6 +44,7 @@ type asStep struct {
 	T    string `json:"t"`
 	Code int32  `json:"code,omitempty"`
 	Hint int32  `json:"hint"`
+	More int32  `json:"more,omitempty"` // a second, less preferred entry of the etype hints
 	To   string `json:"to,omitempty"`
 	Good bool   `json:"good"`
 }
@@ -57,6 +58,7 @@ type asWorld struct {
 	salt       string // the principal's salt (what the KDC advertises)
 	defSalt    string
 	requirePA  bool
+	more       int32 // second entry of the conformant KDC's etype hints (0: none)
 	script     []asStep
 	events     []map[string]interface{}
 	ktKeys     map[int32]types.EncryptionKey
@@ -134,7 +136,7 @@ func (w *asWorld) serve(req []byte, at string) []byte {
 	}
 	if step.T == "auto" {
 		if w.requirePA && !valid {
-			step = asStep{T: "preauth", Code: 25, Hint: w.et}
+			step = asStep{T: "preauth", Code: 25, Hint: w.et, More: w.more}
 			if ev["pa"].(bool) {
 				step.Code = 24
 			}
@@ -149,7 +151,11 @@ func (w *asWorld) serve(req []byte, at string) []byte {
 	case "preauth":
 		var pas types.PADataSequence
 		if step.Hint != 0 {
-			i2, _ := asn1.Marshal([]etypeInfo2Entry{{EType: step.Hint, Salt: w.salt}})
+			ents := []etypeInfo2Entry{{EType: step.Hint, Salt: w.salt}}
+			if step.More != 0 {
+				ents = append(ents, etypeInfo2Entry{EType: step.More, Salt: w.salt + "-old"})
+			}
+			i2, _ := asn1.Marshal(ents)
 			pas = append(pas, types.PAData{PADataType: patype.PA_ETYPE_INFO2, PADataValue: i2})
 		}
 		pas = append(pas, types.PAData{PADataType: patype.PA_ENC_TIMESTAMP})
@@ -242,6 +248,9 @@ func cmdSysAS(args []string) error {
 		family := []string{"conformant", "scripted", "referrals"}[(round/3+round)%3]
 		w := &asWorld{k: newSimKDC(origin), user: fmt.Sprintf("alice%d", round), pw: "pw-as-" + fmt.Sprint(round), home: realm(0), et: et, ktKeys: map[int32]types.EncryptionKey{}}
 		w.requirePA = r.Intn(3) != 0
+		if round%3 != 0 {
+			w.more = allEtypes[(round+int(*seed)+1+round%5)%len(allEtypes)] // never the principal's etype
+		}
 		pn := types.PrincipalName{NameType: 1, NameString: []string{w.user}}
 		w.defSalt = pn.GetSalt(w.home)
 		w.salt = w.defSalt
@@ -331,9 +340,9 @@ func cmdSysAS(args []string) error {
 				var s asStep
 				switch r.Intn(9) {
 				case 0:
-					s = asStep{T: "preauth", Code: 25, Hint: et}
+					s = asStep{T: "preauth", Code: 25, Hint: et, More: w.more}
 				case 1:
-					s = asStep{T: "preauth", Code: 24, Hint: et}
+					s = asStep{T: "preauth", Code: 24, Hint: et, More: w.more}
 				case 2:
 					s = asStep{T: "preauth", Code: []int32{24, 25}[r.Intn(2)], Hint: allEtypes[r.Intn(len(allEtypes))]}
 				case 3:
